@@ -90,6 +90,13 @@ struct SlabEngine : Engine {
 	// ------------------------------------------------------------ generation
 	static size_t class_size(int i) { return i < 3 ? (size_t)8 << i : (size_t)64 << (i - 3); }
 	size_t gen_size(Rng &rng, const PolicyInfo &p, int focus_cls, bool allow_large) {
+		// the property quantifies over request sizes from 0 up to several superblocks
+		size_t n = gen_size_raw(rng, p, focus_cls, allow_large);
+		size_t cap = class_size(p.num_buckets - 1) + 5 * p.sb_size;
+		if (n > cap) n = n > (size_t)1 << 62 ? 0 : cap; // (wrapped negative -> 0)
+		return n;
+	}
+	size_t gen_size_raw(Rng &rng, const PolicyInfo &p, int focus_cls, bool allow_large) {
 		size_t maxs = class_size(p.num_buckets - 1);
 		int r = (int)rng.below(100);
 		if (focus_cls >= 0 && r < 55) { size_t c = class_size(focus_cls); size_t lo = focus_cls ? class_size(focus_cls - 1) + 1 : 0; return lo + rng.below(c - lo + 1); }
@@ -106,8 +113,8 @@ struct SlabEngine : Engine {
 	void generate(Rng &rng, Plan &p, const std::string &prof, int tier) override {
 		int c = (int)rng.below(100);
 		int polc;
-		if (prof == "C03") polc = c < 30 ? PC_A1 : c < 55 ? PC_U2 : c < 70 ? PC_U0 : c < 80 ? PC_A2 : c < 90 ? PC_U1 : PC_A0;
-		else polc = c < 8 ? PC_A0 : c < 30 ? PC_A1 : c < 52 ? PC_A2 : c < 60 ? PC_U0 : c < 80 ? PC_U1 : PC_U2;
+		if (prof == "C03") { static const int w[PC_N] = {4, 18, 5, 9, 5, 14, 10, 4, 12, 4, 3, 12}; int acc = 0; polc = PC_A1; for (int i = 0; i < PC_N; i++) { acc += w[i]; if (c < acc) { polc = i; break; } } }
+		else { static const int w[PC_N] = {6, 14, 12, 6, 11, 10, 8, 7, 8, 6, 6, 6}; int acc = 0; polc = PC_A1; for (int i = 0; i < PC_N; i++) { acc += w[i]; if (c < acc) { polc = i; break; } } }
 		int m = (int)rng.below(100);
 		int mtx = m < 50 ? MT_SIM : m < 78 ? MT_TICKET : MT_SIMPLE;
 		if (p.knobs.count("force_cfg")) { polc = (int)p.knobs["force_cfg"] / MT_N; mtx = (int)p.knobs["force_cfg"] % MT_N; }
